@@ -452,6 +452,21 @@ def runBrs (w : World) : List Br → State → Option State
     | .err _ σ' => runBrs w bs σ'
     | .stuck _ => none
 
+/-! ## The decimal context: `with decimal.localcontext() as ctx:` (fn:round, fn:round-half-to-even) -/
+
+/-- `with localcontext() as ctx: ctx.prec = 2000; <quantize / round>` — `_xpath1_functions.py`
+`evaluate__round`, `_xpath2_functions.py` `evaluate__round_half_to_even`, `_xpath30_functions.py`
+`evaluate__round`: `__enter__` saves the thread's context and installs a modified copy, the body
+is leaf arithmetic (it may raise `InvalidOperation` / `TypeError`), `__exit__` puts the saved
+context back on every exit path.  Flags raised by the body land on the copy. -/
+def withLocalDecimal (σ : State) (raises : Option Nat) : Res Out :=
+  let saved := σ.dec
+  let σ1 := { σ with dec := "copy(prec=2000)" }        -- __enter__
+  let σ2 := { σ1 with dec := saved }                    -- __exit__ (normal return or exception)
+  match raises with
+  | none => .ok .ok σ2
+  | some c => .ok (.err (.body c)) σ2
+
 /-! ## `fn:environment-variable`, `fn:available-environment-variables` (XPath 3.0+) -/
 
 /-- `evaluate__environment_variable` (_xpath30_functions.py 1343-1357): `[]` unless the dynamic
